@@ -317,7 +317,9 @@ def gen_e2e(rng):
     return {"graph": g, "flags": flags, "guard_of": guard_of, "enders": enders, "nsteps": nsteps,
             "sched": sched, "bare_nop": bare_nop, "printed": rng.random() < 0.35,
             # calls made for their effect only: no assignee
-            "noassign": sorted(x for x in ids if rng.random() < 0.3)}
+            "noassign": sorted(x for x in ids if rng.random() < 0.3),
+            # runs bounded by an end time: the phase advances <t> first and yields somewhere in the middle
+            "tend": rng.random() < 0.3}
 
 
 def check_e2e(case, rec, hang_s=30.0):
@@ -329,8 +331,16 @@ def check_e2e(case, rec, hang_s=30.0):
     stmts = []
     for j, fl in enumerate(case["flags"]):
         stmts.append(AssignFunctionCall(("<cond>" + fl,), "<func>flag", (j,), id="set_" + fl))
+    tend = bool(case.get("tend"))
+    if tend:
+        from dagrt.language import YieldState
+        stmts.append(Assign("<t>", (), var("<t>") + 1, id="adv_t"))
+        stmts.append(YieldState(expression=var("<t>"), component_id="tt", time=var("<t>"), time_id="mid",
+                                id="yl", depends_on=frozenset(["adv_t"])))
     for x in g["ids"]:
         deps = set(g["deps"][x])
+        if tend:
+            deps.add("adv_t")
         cond = True
         if x in case["guard_of"]:
             cond = var("<cond>" + case["guard_of"][x])
@@ -367,7 +377,10 @@ def check_e2e(case, rec, hang_s=30.0):
     outcomes = []
     try:
         with case_alarm(hang_s):
-            for ev in islice(interp.run(max_steps=case["nsteps"]), 60):
+            runkw = {"t_end": case["nsteps"]} if tend else {"max_steps": case["nsteps"]}
+            nev = 0
+            for ev in islice(interp.run(**runkw), 60):
+                nev += 1
                 nm = type(ev).__name__
                 if nm in ("StepCompleted", "StepFailed"):
                     outcomes.append(nm)
@@ -375,6 +388,18 @@ def check_e2e(case, rec, hang_s=30.0):
                     calls.append([])
                     if len(outcomes) >= case["nsteps"] + 6:
                         break
+            else:
+                # run() came to its end by itself: whatever was executed since the last reported outcome belongs
+                # to a step that was started and then abandoned without a failure, switch or error
+                if nev >= 60:
+                    rec.count("event_cap_reached")
+                elif calls[-1]:
+                    rec.violation("e2e-step-abandoned-without-outcome",
+                                  f"after {len(outcomes)} reported steps run({runkw}) returned with {calls[-1]} "
+                                  f"executed and no outcome event", case)
+                    return
+                if tend and nev < 60:
+                    rec.count("steps_interpreter_bounded_by_end_time", len(outcomes))
     except CaseTimeout:
         rec.violation("interpreter-hang", "run() did not produce events", case)
         return
